@@ -1,5 +1,6 @@
 import AikenVerif.Lemmas.CekThreshold
 import AikenVerif.Props.C03
+import AikenVerif.Model.CostSpecTable
 /-!
 # C05 — execution budgets are exact: property theorems
 
@@ -258,6 +259,17 @@ theorem budget_suffices (cfg : Config) (hn : NonnegCosts cfg.costs cfg.sem) (fue
     | fail => intro h; cases h
     | panic => intro h; cases h
     | unmodelled => intro h; cases h
+
+/-- **which size measure feeds which costing function**: the recipe regenerated from `cost_model.rs`
+(argument measured as memory words / literally / as a size in bytes / by list length / under the
+ledger variant for text, and the fallible preliminary steps) is the specification's, builtin by
+builtin; so `builtinCost` is the specification's cost function -/
+theorem measure_table (b : Builtin) : Gen.costSpec b = Spec.costSpecOf b := by
+  cases b <;> rfl
+
+theorem builtinCost_is_spec (cm : CostModel) (sem : Sem) (b : Builtin) (args : List Value) :
+    builtinCost cm sem b args = builtinCostWith (Spec.costSpecOf b) cm sem b args := by
+  rw [← measure_table b]; rfl
 
 /-- the generated step-kind tables are coherent: counter `i` of `unbudgeted_steps` is priced with the
 cost of the step kind whose tag is `i`, and every term former is charged as a non-start-up kind -/
